@@ -63,6 +63,7 @@ structure Route where
   id : Nat
   method : Str
   path : Str                    -- Route.Path = concatPath root rel
+  root : Str                    -- the service's root path when the route was built
   relPath : Str
   pathParts : List Str          -- tokenizePath(Path)
   hasCustomVerb : Bool          -- hasCustomVerb(Path)
@@ -74,7 +75,7 @@ structure Route where
 
 def Service.build (s : Service) (r : RouteDecl) : Route :=
   let p := concatPath s.rootPath r.relPath
-  { svc := s.id, id := r.id, method := r.method, path := p, relPath := r.relPath,
+  { svc := s.id, id := r.id, method := r.method, path := p, root := s.rootPath, relPath := r.relPath,
     pathParts := tokenize p, hasCustomVerb := hasCustomVerb p,
     consumes := s.consumesOf r, produces := s.producesOf r, conds := r.conds, noct := r.noct }
 
